@@ -221,3 +221,35 @@ def run(ck):
     lib.self_view_rule(ck, "C17-R7", ['Pistache::Http::Cookie', 'Pistache::Http::CookieJar'],
                        "cookies and jars are copied freely (CookieJar::add copies the cookie, iterators hand out copies)")
 
+    # ---------------- R8: no empty bucket in the jar ----------------
+    ck.rule("C17-R8", "D who-may-mutate (container invariant)",
+            "the jar files cookies in buckets by name (a map of maps) and its iterator, get() and has() take a bucket for 'at least one "
+            "cookie of that name' -- the iterator dereferences the bucket's begin() unconditionally.  Buckets are created with their "
+            "first cookie and nothing takes cookies out of a bucket: the only removal in CookieJar is of whole buckets (clear / erase on "
+            "the outer table)", 1)
+    jar = prog.cls("Pistache::Http::CookieJar")
+    ck.require(jar is not None, "CookieJar not found")
+    outer = [x for x in jar["fields"] if "map<" in (x.get("ctype") or "")]
+    ck.require(len(outer) == 1, "CookieJar storage field: %s" % [x["name"] for x in outer])
+    oct_ = outer[0]["ctype"]
+    i2 = oct_.find("map<", oct_.find("map<") + 1)
+    nested = i2 > 0
+    REMOVERS8 = ("clear", "erase", "extract", "swap", "pop_back", "pop_front")
+    rem_outer, rem_inner = [], []
+    for f in prog.funcs.values():
+        if not f.blocks or not (f.cls == "Pistache::Http::CookieJar" or (f.is_lambda and prog.owner(f).cls == "Pistache::Http::CookieJar")):
+            continue
+        for e in f.events("call"):
+            nm = (e.get("callee") or "").rsplit("::", 1)[-1]
+            if nm not in REMOVERS8 or "map<" not in (e.get("ccls") or ""):
+                continue
+            if (e.get("ccls") or "") == oct_:
+                rem_outer.append((e, f))
+            elif nested and (e.get("ccls") or "") in oct_:
+                rem_inner.append((e, f))
+    ck.ob("C17-R8", "CookieJar/buckets-never-emptied", not rem_inner, (rem_inner[0][0].loc if rem_inner else "%s:%s" % (jar.get("file"), jar.get("line"))),
+          (rem_inner[0][1] if rem_inner else ""),
+          "removals on the outer table: %d; none on a bucket%s" % (len(rem_outer), "" if nested else " (storage is not nested)") if not rem_inner else
+          "%s at line %s empties or shrinks a bucket and leaves it in the table: the iterator dereferences begin() of an empty bucket, and a "
+          "name without cookies is still 'there'" % (rem_inner[0][0].get("t"), rem_inner[0][0].get("l")))
+
